@@ -7,7 +7,9 @@
   Deepen3Task on C07's `importStep`), RemoveWallet (`removeMark`: the flag, then the task is queued), one iteration
   of the worker's removal (`removeStep`, C08's `removeStep` as an `Op`), and `drain`: the worker runs its queued
   task to the end.  The worker only ever runs a task that is IN THE QUEUE (`PVol.tasks`): after a crash it is
-  `initTaskChan` (`requeue`, run by `Model.Persist.crash`) that puts it there again.
+  `initTaskChan` (`requeue`, run by `Model.Persist.crash`) that puts it there again.  (It also looks at the stored
+  status: a queued task for a wallet that is ready / gone is skipped — the code queues tasks for unfinished wallets
+  only, `OnImportWallet` under `!ws.Ready()`, `initTaskChan` from the stored status.)
 
   The hypotheses on a history again live on a SKELETON that does not depend on the crashes: C06's `Skel` plus the
   notification queue of the run that never stops plus the task window (`busy`).
@@ -75,7 +77,7 @@ def stepT (cfg : Cfg) (crashing : Bool) (x : SysQ) : EvT → SysQ
     let res := (opImportStart cfg.n w r).run none x.P x.V
     { x with P := res.P, V := res.V }
   | .importStep w =>
-    if x.V.tasks.contains (.imp w) then
+    if x.V.tasks.contains (.imp w) && !importDone x.P w then
       let res := (opImportStep cfg.batch cfg.n (envAt cfg.st x.chain) w).run none x.P x.V
       { x with P := res.P, V := if res.ok && importDone res.P w then dropTask res.V (.imp w) else res.V }
     else x
@@ -83,16 +85,16 @@ def stepT (cfg : Cfg) (crashing : Bool) (x : SysQ) : EvT → SysQ
     let res := (opRemoveMark cfg.n w).run none x.P x.V
     { x with P := res.P, V := res.V }
   | .removeStep w =>
-    if x.V.tasks.contains (.rem w) then
+    if x.V.tasks.contains (.rem w) && !removeDone x.P w then
       let res := (opRemoveStep cfg.limit cfg.n (envAt cfg.st x.chain) w (addrsOf x.V.keys w)).run none x.P x.V
       { x with P := res.P, V := if res.ok && removeDone res.P w then dropTask res.V (.rem w) else res.V }
     else x
   | .drain w fuel =>
-    if x.V.tasks.contains (.imp w) then
+    if x.V.tasks.contains (.imp w) && !importDone x.P w then
       match importLoop cfg.batch cfg.n (envAt cfg.st x.chain) w fuel x.P x.V with
       | some (P', V') => { x with P := P', V := dropTask V' (.imp w) }
       | none => x
-    else if x.V.tasks.contains (.rem w) then
+    else if x.V.tasks.contains (.rem w) && !removeDone x.P w then
       match removeLoop cfg.limit cfg.n (envAt cfg.st x.chain) w (addrsOf x.V.keys w) fuel x.P x.V with
       | some (P', V') => { x with P := P', V := dropTask V' (.rem w) }
       | none => x
